@@ -171,27 +171,200 @@ Theorem C07_answer_provenance :
 Proof. exact recursive_provenance. Qed.
 Print Assumptions C07_answer_provenance.
 
-(* C07_correct_partial -- NOT PROVED.  Target statement:
+(* ---- towards C07_correct: the hops of a resolution against Universe.serve ----
+   (lemmas: Resolver/RecursiveCorrect.v).  [delivers o u port]: the transport hands the resolver the
+   message [serve] prescribes (what the stream's table oracle, built from [serve], does when nothing
+   is faulted and the reply fits the transport). *)
+From RV Require Import Wire.WireModel Wire.WireGrammar Wire.WireEncodeProofs Resolver.RecursiveCorrect.
+
+(* the reply filter is COMPLETE on the three shapes of reply an authoritative server gives (C06
+   proves it sound): a plain answer is accepted whole, *)
+Theorem C07_filter_accepts_plain_answer : forall q aa rcode ans au ad mc,
+  Forall (fun r => rr_is_unknown r = false /\ rr_name r = q_name q /\ rtype_matches (rr_type r) (q_type q) = true
+                   /\ rr_type r <> RT_CNAME) ans ->
+  ans <> [] ->
+  validate_nameserver_response q (reply_message q {| sr_answers := ans; sr_authority := au; sr_additional := ad;
+                                                     sr_aa := aa; sr_rcode := rcode |}) mc
+  = Ok (Some (NRAnswer ans None)).
+Proof. exact validate_plain_answer. Qed.
+Print Assumptions C07_filter_accepts_plain_answer.
+
+(* a denial (no answers, the zone's SOA alone in the authority section) is an empty answer with that SOA, *)
+Theorem C07_filter_accepts_denial : forall q aa rcode soa ad mc,
+  (rcode = RCODE_NoError \/ rcode = RCODE_NameError) ->
+  rr_type soa = RT_SOA -> is_subdomain_of (q_name q) (rr_name soa) = true -> mc <= llen (labels (rr_name soa)) ->
+  validate_nameserver_response q (reply_message q {| sr_answers := []; sr_authority := [soa]; sr_additional := ad;
+                                                     sr_aa := aa; sr_rcode := rcode |}) mc
+  = Ok (Some (NRAnswer [] (Some soa))).
+Proof. exact validate_denial. Qed.
+Print Assumptions C07_filter_accepts_denial.
+
+(* and a referral (the NS set of one delegation point enclosing the question name, deeper than the
+   delegation in use) is a Delegation to that point whose hosts are exactly the NS targets *)
+Theorem C07_filter_accepts_referral : forall q aa rcode c ns ad mc,
+  ns <> [] -> Forall (fun r => rr_name r = c /\ exists h, is_ns_rr r = Some h) ns ->
+  is_subdomain_of (q_name q) c = true -> mc < llen (labels c) ->
+  exists rrs names,
+    validate_nameserver_response q (reply_message q {| sr_answers := []; sr_authority := ns; sr_additional := ad;
+                                                       sr_aa := aa; sr_rcode := rcode |}) mc
+    = Ok (Some (NRDelegation rrs {| ns_hostnames := names; ns_name := c |}))
+    /\ (forall h, In h names <-> exists r, In r ns /\ is_ns_rr r = Some h).
+Proof. exact validate_referral. Qed.
+Print Assumptions C07_filter_accepts_referral.
+
+(* at the zone that owns the question name (longest apex, no delegation point on the way, no alias
+   at the name) what a server of that zone says IS the authoritative answer *)
+Theorem C07_serve_is_auth_answer : forall u a z q,
+  owns_plainly u z q -> serves_owner u a z q ->
+  aa_defined (auth_answer u q) = true /\
+  aa_rrs (auth_answer u q) = filter (fun r => rtype_matches (rr_type r) (q_type q)) (rrs_at z (q_name q)) /\
+  ((aa_rrs (auth_answer u q) <> [] /\ aa_soa (auth_answer u q) = None
+    /\ serve u a q = Some (reply_message q {| sr_answers := aa_rrs (auth_answer u q); sr_authority := []; sr_additional := [];
+                                              sr_aa := true; sr_rcode := RCODE_NoError |}))
+   \/ (aa_rrs (auth_answer u q) = [] /\ aa_soa (auth_answer u q) = Some (uz_soa z)
+       /\ exists rcode, (rcode = RCODE_NoError \/ rcode = RCODE_NameError)
+            /\ serve u a q = Some (reply_message q {| sr_answers := []; sr_authority := [uz_soa z]; sr_additional := [];
+                                                      sr_aa := true; sr_rcode := rcode |}))).
+Proof. exact serve_is_auth_answer. Qed.
+Print Assumptions C07_serve_is_auth_answer.
+
+(* C07_last_hop_partial.  For EVERY universe: when the candidate loop is at a delegation no deeper
+   than the zone [z] that owns the question name (no delegation point on the way, no alias at the
+   name; question type other than CNAME / ANY), the candidate it picks has an address at which a
+   server of [z] listens, and the transport delivers what [serve] prescribes, the loop returns
+   EXACTLY the authoritative answer: the records of the asked type at the name, or no records and
+   the zone's SOA. *)
+Theorem C07_last_hop_partial :
+  forall (cache : Type) (cache_get : cache -> dname -> N -> list rr) (cache_insert_all : cache -> list rr -> cache)
+         (sort_names : list dname -> list dname) (zs : zones) (o : oracle) (pmode : protocol_mode) (port : N)
+         u z q (rec : list question -> question -> RM cache rres) (loop : N -> list dname -> list dname -> bool -> RM cache rres)
+         stack mc cands next locally st candidate rest a st1,
+  delivers o u port q -> owns_plainly u z q -> serves_owner u a z q ->
+  q_type q <> RT_CNAME -> q_type q <> QT_Wildcard ->
+  Forall (fun r => rr_is_unknown r = false) (zone_data z) ->
+  rr_type (uz_soa z) = RT_SOA -> rr_name (uz_soa z) = uz_apex z -> mc <= llen (labels (uz_apex z)) ->
+  pop_last cands = Some (candidate, rest) ->
+  resolve_hostname_to_ip cache cache_get zs pmode rec stack locally candidate st = (Val (Some a), st1) ->
+  ts_elapsed (snd st1) <= BUDGET_MS ->
+  exists st',
+    candidate_step cache cache_get cache_insert_all sort_names zs o pmode port rec loop stack q [] mc cands next locally st
+    = (Val (ROk (NonAuthoritative (aa_rrs (auth_answer u q)) (aa_soa (auth_answer u q)))), st').
+Proof. exact last_hop. Qed.
+Print Assumptions C07_last_hop_partial.
+
+(* C07_referral_hop_partial.  For EVERY universe: when the candidate has an address at which a
+   server listens whose best zone [z0] for the question name has a delegation point [c] on the way,
+   deeper than the delegation in use, and the transport delivers [serve]'s referral, the loop caches
+   the NS set of the cut and the glue for its hosts and continues with exactly the delegation [c]
+   and the NS targets at [c] as hosts.  (Excluded: the question name owns glue in that referral --
+   the glue shortcut, finding F11.) *)
+Theorem C07_referral_hop_partial :
+  forall (cache : Type) (cache_get : cache -> dname -> N -> list rr) (cache_insert_all : cache -> list rr -> cache)
+         (sort_names : list dname -> list dname) (zs : zones) (o : oracle) (pmode : protocol_mode) (port : N)
+         u a z0 c q (rec : list question -> question -> RM cache rres) (loop : N -> list dname -> list dname -> bool -> RM cache rres)
+         stack mc cands next locally st candidate rest st1,
+  delivers o u port q ->
+  (exists zs', zones_of_server u a = Some zs' /\ best_zone zs' (q_name q) None = Some z0) ->
+  cut_owner z0 (q_name q) = Some c ->
+  Forall (fun r => exists h, is_ns_rr r = Some h) (uz_cuts z0) ->
+  mc < llen (labels c) ->
+  (forall r, In r (uz_glue z0 ++ uz_rrs z0) -> rr_name r <> q_name q) ->
+  pop_last cands = Some (candidate, rest) ->
+  resolve_hostname_to_ip cache cache_get zs pmode rec stack locally candidate st = (Val (Some a), st1) ->
+  ts_elapsed (snd st1) <= BUDGET_MS ->
+  exists names ts3,
+    candidate_step cache cache_get cache_insert_all sort_names zs o pmode port rec loop stack q [] mc cands next locally st
+    = loop (llen (labels c)) (sort_names names) [] true
+           (cache_insert_all (fst st1)
+              (filter (ns_glue_filter c names true false) (sr_authority (referral z0 c))
+               ++ filter (ns_glue_filter c names false true) (sr_additional (referral z0 c))), ts3)
+    /\ (forall h, In h names <-> exists r, In r (uz_cuts z0) /\ rr_name r = c /\ is_ns_rr r = Some h)
+    /\ ts_elapsed ts3 <= BUDGET_MS.
+Proof. exact referral_hop. Qed.
+Print Assumptions C07_referral_hop_partial.
+
+(* the fault-free universe oracle DELIVERS: for a well-formed question whose request fits a
+   datagram, in a universe whose servers' replies to it are well-formed messages of at most 512
+   octets ([serve_fits]), query_nameserver returns exactly the message [serve] prescribes -- the
+   request and the reply make the round trip through the wire codec (C04), the request's question
+   is recovered by the oracle, the id is patched in, the datagram fits the receive buffer, the
+   budget is not touched *)
+Theorem C07_universe_oracle_delivers : forall u port q,
+  wf_question q ->
+  (forall req, encode (make_request q false) = Ok req -> llen req <= 512) ->
+  (forall a m, serve u a q = Some m -> wf_message m /\ exists bs, encode m = Ok bs /\ llen bs <= 512) ->
+  forall a m ts, ts_elapsed ts <= BUDGET_MS -> serve u a q = Some m ->
+    response_matches_request (make_request q false) m = true ->
+    exists ts', query_nameserver (universe_oracle u []) (a, port) q false ts = (Val (Some m), ts')
+                /\ ts_elapsed ts' <= BUDGET_MS.
+Proof. exact universe_oracle_delivers. Qed.
+Print Assumptions C07_universe_oracle_delivers.
+
+(* the hypotheses of the two hop theorems are met in the worked universe: com. owns www.com.
+   plainly and 10.0.0.2 serves it; the root server has the cut com. on the way *)
+Definition ex_dummy_zone : uzone :=
+  {| uz_apex := n_root; uz_soa := mk_rr n_root RT_SOA 0 (RD_A 0); uz_rrs := []; uz_cuts := []; uz_glue := [] |}.
+Definition ex_root_zone : uzone := nth 0 (u_zones ex_universe) ex_dummy_zone.
+Definition ex_com_zone : uzone := nth 1 (u_zones ex_universe) ex_dummy_zone.
+Definition ex_q_www : question := {| q_name := n_www_com; q_type := RT_A; q_class := RC_IN |}.
+Example C07_example_hops :
+  owns_plainly ex_universe ex_com_zone ex_q_www
+  /\ serves_owner ex_universe (inl ip_com) ex_com_zone ex_q_www
+  /\ cut_owner ex_root_zone n_www_com = Some n_com
+  /\ Forall (fun r => rr_is_unknown r = false) (zone_data ex_com_zone)
+  /\ Forall (fun r => exists h, is_ns_rr r = Some h) (uz_cuts ex_root_zone).
+Proof.
+  split; [|split; [|split; [|split]]].
+  - repeat split; vm_compute; reflexivity.
+  - eexists. split; vm_compute; reflexivity.
+  - vm_compute. reflexivity.
+  - vm_compute. repeat constructor.
+  - repeat constructor. eexists. vm_compute. reflexivity.
+Qed.
+
+(* ... and the worked universe's replies to that question are well-formed messages that fit a
+   datagram, so the universe oracle delivers them (the hypothesis [delivers] of the hop theorems holds) *)
+Example C07_example_delivers : forall port, delivers (universe_oracle ex_universe []) ex_universe port ex_q_www.
+Proof.
+  intro port. apply universe_oracle_delivers.
+  - apply wf_question_b_sound. vm_compute. reflexivity.
+  - intros req E. vm_compute in E. inversion E; subst. vm_compute. discriminate.
+  - intros a m H. unfold serve, zones_of_server in H. cbn [ex_universe u_servers find fst] in H.
+    destruct (ip_eqb (inl ip_root) a).
+    + inversion H; subst. split; [apply wf_message_b_sound; vm_compute; reflexivity|].
+      eexists. split; [vm_compute; reflexivity|vm_compute; discriminate].
+    + destruct (ip_eqb (inl ip_com) a); [|discriminate].
+      inversion H; subst. split; [apply wf_message_b_sound; vm_compute; reflexivity|].
+      eexists. split; [vm_compute; reflexivity|vm_compute; discriminate].
+Qed.
+
+(* C07_correct_partial -- NOT PROVED as a whole.  Target statement:
 
      forall u zones q, consistentb u = true -> glue_complete u -> in_bailiwick u -> roots_configured u zones ->
-       wf_universe u (names well formed, RRsets with one TTL, messages encodable in 512 octets) ->
        exists F, forall fuel, F <= fuel ->
          fst (resolve_simple (ModeRecursive pmode) port zones (universe_oracle u []) fuel q (sc_empty, tstate_init))
          = Ok (NonAuthoritative (aa_rrs (auth_answer u q)) (aa_soa (auth_answer u q)))
        (when aa_defined (auth_answer u q) and every zone has a nameserver address the mode can use)
 
-   by induction on the depth of the zone owning the name.  What exists: the step facts the induction
-   needs on the model side (C07_referral_progress: each referral is followed and is deeper;
-   C07_answer_provenance; C08_recursive_terminates: F exists) and on the specification side
-   (C07_referral_strictly_deeper, C07_auth_answer_from_universe), the worked two-level universe
-   evaluated inside Coq (C07_example_two_level: root -> com., alias inside com.), and the
-   differential stream, which compares the implementation with the extracted auth_answer on every
-   generated consistent universe (vlib/p_c07.py) and the model with the implementation on every
-   exchange.  What is missing for the proof, even for depth 1 (root -> one child zone): the round
-   trip of [serve]'s messages through the wire codec as a lemma usable under the oracle
-   (encode/decode of reply_message with compression, C04_roundtrip needs wf_message of every
-   served message, i.e. a well-formedness predicate on universes), the glue shortcut F11 (a
-   nameserver-address question answered from the first glue record) as a hypothesis on u, and the
-   lemma that validate_nameserver_response maps [referral z c] to NRDelegation with
-   ns_name = c, ns_hostnames = the NS targets, and [serve]'s answer to NRAnswer (auth_answer)
-   -- the filter's completeness, of which C06 proves soundness only. *)
+   by induction on the depth of the zone owning the name.  PROVED, for every universe: the two kinds
+   of hop of that induction (C07_referral_hop_partial: a referral is followed to exactly the
+   delegated zone's hosts; C07_last_hop_partial: at the owning zone's server the result is exactly
+   auth_answer), that every referral followed is strictly deeper and the number of referrals is
+   bounded by the labels of the question name (C07_referral_progress), completeness of the reply
+   filter on [serve]'s three reply shapes, agreement of [serve] with [auth_answer] at the owning zone,
+   termination (C08_recursive_terminates) and provenance (C07_answer_provenance); plus the worked
+   two-level universe evaluated inside Coq (C07_example_two_level).
+   MISSING to chain the hops into the whole statement, even for depth 1 (root -> one child zone):
+   (1) that resolve_hostname_to_ip yields, for the candidate the loop pops, an address at which a
+       server of the delegated zone listens -- from the root-hints zone for the first hop (needs the
+       lookup behaviour of a zone built by Zone::insert for arbitrary names: C02's flat specification)
+       and from the cached glue for the later ones (needs "get after insert_all" for SimpleCache);
+   (2) (done: C07_universe_oracle_delivers discharges [delivers] for the fault-free universe oracle
+       under [serve_fits] -- well-formed replies of at most 512 octets -- which remains a hypothesis
+       on the universe, decidable per question);
+   (3) aliases: [serve]'s multi-link answers and the NRCname continuation;
+   (4) the glue shortcut F11 (a nameserver-address question answered from the first glue record)
+       as a hypothesis on the universe.
+   Until then "the result EQUALS auth_answer" is covered by the differential stream (vlib/p_c07.py:
+   the implementation's result = the extracted auth_answer on every generated consistent universe,
+   the model = the implementation on every exchange). *)
